@@ -185,3 +185,15 @@ Theorem C04_r1cs_builder_exact :
      forall j o, nth_error outs j = Some o -> nth o fin zero = nth j ovals zero).
 Proof. exact compile_exact. Qed.
 Print Assumptions C04_r1cs_builder_exact.
+
+(* the function the correspondence check evaluates (b_compile_ext, with the bit-level calls) is, on every program
+   inside the core, the function the theorems above are about *)
+Theorem C04_r1cs_ext_is_core :
+  forall (F : Type) (zero one : F) (add mul sub : F -> F -> F) (opp inv : F -> F)
+         (eq_dec : forall x y : F, {x = y} + {x <> y}) (cst : Z -> F) (fbl : nat) (qm1 : Z) (toZ : F -> Z)
+         (nbpub nbsec thr : nat) (prog : list op) (outs : list nat),
+  forallb (fun o : op => core_op (fst o)) prog = true ->
+  b_compile_ext F zero one add mul sub opp inv eq_dec cst fbl qm1 toZ nbpub nbsec thr prog outs =
+  b_compile F zero one add mul sub opp inv eq_dec cst nbpub nbsec thr prog outs.
+Proof. exact b_compile_ext_core. Qed.
+Print Assumptions C04_r1cs_ext_is_core.
